@@ -183,4 +183,151 @@ theorem inv_reachable {n : Nat} {s : State} (h : Reachable n s) : Inv s := by
 
 end Group
 
+/-! ### escalation thread / destructor hand-over -/
+namespace Esc
+
+structure Inv (fix : Bool) (s : State) : Prop where
+  /-- the thread exists only after cancelAllJobs closed the group -/
+  threadClosed : s.thread ≠ .none → s.closed = true
+  /-- `waited` is set exactly by entering the wait -/
+  notWaited : (s.thread = .none ∨ s.thread = .created) → s.waited = false
+  /-- once the kill round has run every process that is still registered was signalled (nothing registers once closed) -/
+  killedAll : s.thread = .finished true → ∀ p ∈ s.procs, p.1 ∈ s.killSent
+  /-- the thread returns without the kill round only in the unfixed code and only if it never waited -/
+  skipped : s.thread = .finished false → fix = false ∧ s.waited = false
+  /-- the destructor's join returns only after the thread finished -/
+  joined : s.escJoined = true → ∃ b, s.thread = .finished b
+
+theorem inv_init (fix : Bool) : Inv fix init := by
+  refine ⟨by simp [init], by simp [init], by simp [init], by simp [init], by simp [init]⟩
+
+theorem inv_step {fix : Bool} {s s' : State} {a : Act} (h : Inv fix s) (hs : stepWith fix s a = some s') : Inv fix s' := by
+  obtain ⟨h1, h2, h3, h4, h5⟩ := h
+  cases a with
+  | spawn =>
+    simp only [stepWith] at hs
+    split at hs
+    · rename_i hc
+      simp at hc
+      simp at hs; subst hs
+      have hn : s.thread = .none := by
+        by_cases ht : s.thread = .none
+        · exact ht
+        · have := h1 ht; simp [hc.1] at this
+      refine ⟨h1, h2, ?_, h4, h5⟩
+      intro ht; simp [hn] at ht
+    · simp at hs
+  | release pid =>
+    simp only [stepWith] at hs
+    split at hs
+    · simp at hs; subst hs
+      refine ⟨h1, h2, ?_, h4, h5⟩
+      intro ht p hp
+      simp only [mem_map] at hp
+      obtain ⟨q, hq, rfl⟩ := hp
+      have := h3 ht q hq
+      split <;> simpa using this
+    · simp at hs
+  | reap pid =>
+    simp only [stepWith] at hs
+    simp at hs; subst hs
+    exact ⟨h1, h2, fun ht p hp => h3 ht p (mem_filter.1 hp).1, h4, h5⟩
+  | cancel =>
+    simp only [stepWith] at hs
+    split at hs
+    · rename_i hc
+      simp at hc
+      simp at hs; subst hs
+      have hn : s.thread = .none := by
+        by_cases ht : s.thread = .none
+        · exact ht
+        · have := h1 ht; simp [hc.1] at this
+      refine ⟨fun _ => rfl, fun _ => h2 (Or.inl hn), by simp, by simp, ?_⟩
+      intro hj
+      obtain ⟨b, hb⟩ := h5 hj
+      simp [hn] at hb
+    · simp at hs
+  | escEnter =>
+    simp only [stepWith] at hs
+    split at hs
+    · rename_i hc
+      split at hs
+      · simp at hs; subst hs
+        refine ⟨fun _ => h1 (by simp [hc]), by simp, ?_, ?_, fun _ => ⟨fix, rfl⟩⟩
+        · intro ht p hp
+          have hf : fix = true := by simpa using ht
+          subst hf
+          simp only [if_true, mem_append, mem_map]
+          exact Or.inl ⟨p, hp, rfl⟩
+        · intro ht
+          have hf : fix = false := by simpa using ht
+          exact ⟨hf, h2 (Or.inr hc)⟩
+      · simp at hs; subst hs
+        refine ⟨fun _ => h1 (by simp [hc]), by simp, by simp, by simp, ?_⟩
+        intro hj
+        obtain ⟨b, hb⟩ := h5 hj
+        simp [hc] at hb
+    · simp at hs
+  | escWake =>
+    simp only [stepWith] at hs
+    split at hs
+    · rename_i hc
+      simp at hs; subst hs
+      refine ⟨fun _ => h1 (by simp [hc]), by simp, ?_, by simp, fun _ => ⟨true, rfl⟩⟩
+      intro _ p hp
+      simp only [mem_append, mem_map]
+      exact Or.inl ⟨p, hp, rfl⟩
+    · simp at hs
+  | joinLanes =>
+    simp only [stepWith] at hs
+    split at hs
+    · simp at hs; subst hs; exact ⟨h1, h2, h3, h4, h5⟩
+    · simp at hs
+  | complete =>
+    simp only [stepWith] at hs
+    split at hs
+    · simp at hs; subst hs; exact ⟨h1, h2, h3, h4, h5⟩
+    · simp at hs
+  | joinEsc =>
+    simp only [stepWith] at hs
+    split at hs
+    · rename_i b hb
+      split at hs
+      · simp at hs; subst hs
+        exact ⟨h1, h2, h3, h4, fun _ => ⟨b, hb⟩⟩
+      · simp at hs
+    · simp at hs
+
+theorem inv_reachable {fix : Bool} {s : State} (h : Reachable fix s) : Inv fix s := by
+  induction h with
+  | init => exact inv_init fix
+  | step a _ hs ih => exact inv_step ih hs
+
+/-- when the destructor has joined the escalation thread, every process that is still registered (so: every process
+`~ProcessGroup` is about to wait for) has been sent the kill signal — provided the thread ran its kill round, which the
+fixed code always does and the unfixed code does iff the thread entered its wait before `queueComplete` was stored -/
+theorem escalated {fix : Bool} {s : State} (h : Reachable fix s) (hj : s.escJoined = true)
+    (hw : fix = true ∨ s.waited = true) : ∀ p ∈ s.procs, p.1 ∈ s.killSent := by
+  have i := inv_reachable h
+  obtain ⟨b, hb⟩ := i.joined hj
+  cases b with
+  | true => exact i.killedAll hb
+  | false =>
+    have := i.skipped hb
+    rcases hw with hw | hw
+    · simp [this.1] at hw
+    · simp [this.2] at hw
+
+theorem reachable_run {fix : Bool} {s s' : State} (h : Reachable fix s) (l : List Act) (hr : run fix s l = some s') :
+    Reachable fix s' := by
+  induction l generalizing s with
+  | nil => simp [run] at hr; subst hr; exact h
+  | cons a as ih =>
+    simp only [run] at hr
+    cases hs : stepWith fix s a with
+    | none => simp [hs] at hr
+    | some s1 => simp [hs] at hr; exact ih (Reachable.step a h hs) hr
+
+end Esc
+
 end LLBuild.ProcStatus
